@@ -10,7 +10,7 @@ shutil.copy('%s/out/notes%s.txt' % (a, i), d + '/notes.txt')
 notes = open(d + '/notes.txt').read()
 m = dict(re.findall(r'(\w+)=(\S+)', conf))
 meta = {'id': nid, 'property': prop, 'breaks': prop, 'change': ' '.join(notes.split())[:400], 'needs_to_manifest': 'see notes.txt',
-        'wave': int(wave), 'origin': 'independent sub-agent given only the property text and a scratch worktree (fifth wave: small edits inside existing functions, steered to areas earlier waves had not touched)',
+        'wave': int(wave), 'origin': 'independent sub-agent given only the property text and a scratch worktree (wave %s)' % wave,
         'confirmed_by_me': {'tests_with_patch': '%s/%s gtest cases pass' % (m.get('ok'), m.get('ok')), 'demo_without_patch_exit': int(m.get('demo_pristine', -1)),
                             'demo_with_patch_exit': int(m.get('demo_patched', -1)), 'how': 'tools/confirm_seed.sh: scratch worktree under /tmp/confirm, cmake+ninja build, tests binary, g++ demo.cpp -lcdns, worktree removed'},
         'expected': 'pending'}
